@@ -276,7 +276,7 @@ pub fn drive<T>(net: &SimNet, mut fut: Pin<&mut (impl Future<Output = T> + ?Size
 }
 
 /// Poll a set of boxed tasks; ready ones are removed. Never completes.
-struct Tasks<'a>(Vec<Option<Pin<Box<dyn Future<Output = ()> + 'a>>>>);
+pub struct Tasks<'a>(pub Vec<Option<Pin<Box<dyn Future<Output = ()> + 'a>>>>);
 
 impl Future for Tasks<'_> {
     type Output = ();
@@ -334,7 +334,7 @@ impl<H: ExchangeHandler> ExchangeHandler for Cancelling<'_, H> {
 
 // ------------------------------------------------------------------------------------------ helpers
 
-fn kvs(op: &str) -> std::collections::HashMap<String, String> {
+pub fn kvs(op: &str) -> std::collections::HashMap<String, String> {
     let mut m = std::collections::HashMap::new();
     for w in op.split_whitespace() {
         if let Some((k, v)) = w.split_once('=') {
@@ -344,7 +344,7 @@ fn kvs(op: &str) -> std::collections::HashMap<String, String> {
     m
 }
 
-fn num(m: &std::collections::HashMap<String, String>, k: &str) -> Option<u64> {
+pub fn num(m: &std::collections::HashMap<String, String>, k: &str) -> Option<u64> {
     m.get(k).and_then(|v| v.parse().ok())
 }
 
@@ -357,7 +357,7 @@ fn install_fabric<C: Crypto>(crypto: &C, keys: &Keys, m: &Matter, node: u64) -> 
     m.with_state(|st| st.fabrics.add(crypto, CanonPkcSecretKeyRef::new(&sk), &rb, &nb, &[], Some(CanonAeadKeyRef::new(&IPK)), 0xFFF1, 112233).map(|f| f.fab_idx()).ok())
 }
 
-fn err_code(e: &Error) -> String {
+pub fn err_code(e: &Error) -> String {
     format!("{:?}", e.code())
 }
 
@@ -385,7 +385,7 @@ pub struct TableView {
     pub pinned_extra: usize,
 }
 
-fn view(dev: &Matter, pinned: &[u32]) -> TableView {
+pub fn view(dev: &Matter, pinned: &[u32]) -> TableView {
     dev.with_state(|st| {
         let mut v = TableView::default();
         for s in st.verif_sessions().iter() {
